@@ -16,7 +16,7 @@ pub fn monitor() -> Monitor {
 fn run(ctx: &mut Ctx, _extra: &mut BTreeMap<String, String>) {
   let shards = if ctx.thorough { 16 } else { 4 };
   let seed = ctx.seed;
-  let n = match (ctx.thorough, ctx.pass.as_str()) { (false, "release") => 20000, (false, _) => 4000, (true, "release") => 400000, (true, _) => 40000 };
+  let n = match (ctx.thorough, ctx.pass.as_str()) { (false, "release") => 20000, (false, _) => 4000, (true, "release") => 4000000, (true, _) => 40000 };
   run_sharded(ctx, shards, |c, k| {
     let mut rng = Rng::new(seed, 1700 + k as u64);
     let mut pts = hostile_points(&mut rng, n);
